@@ -299,22 +299,175 @@ theorem fromStm_keys_nodup (buf : Bytes) (x : XTable) (n : Nat) (os : LObjects) 
   have : ks.Pairwise (· < ·) := (sorted_keys_lt x).sublist hs
   exact this.imp (fun h => by omega)
 
+/-! ### the deferred streams: completion order -/
+
+theorem LObjects.get_insert_ne (os : LObjects) (a b : ObjId) (v : LObj) (h : a ≠ b) :
+    (os.insert a v).get b = os.get b := by
+  induction os with
+  | nil => simp [LObjects.insert, LObjects.get, h]
+  | cons p rest ih =>
+    obtain ⟨i, o⟩ := p
+    by_cases hi : i = a
+    · subst hi; simp [LObjects.insert, LObjects.get, h]
+    · by_cases hb : i = b
+      · subst hb; simp [LObjects.insert, LObjects.get, hi]
+      · simp [LObjects.insert, LObjects.get, hi, hb, ih]
+
+theorem LObjects.get_insert_self (os : LObjects) (a : ObjId) (v : LObj) :
+    (os.insert a v).get a = some v := by
+  induction os with
+  | nil => simp [LObjects.insert, LObjects.get]
+  | cons p rest ih =>
+    obtain ⟨i, o⟩ := p
+    by_cases hi : i = a
+    · simp [LObjects.insert, LObjects.get, hi]
+    · simp [LObjects.insert, LObjects.get, hi, ih]
+
+theorem LObjects.insert_comm (os : LObjects) (a b : ObjId) (va vb : LObj) (h : a ≠ b)
+    (ha : (os.get a).isSome) (hb : (os.get b).isSome) :
+    (os.insert a va).insert b vb = (os.insert b vb).insert a va := by
+  induction os with
+  | nil => simp [LObjects.get] at ha
+  | cons p rest ih =>
+    obtain ⟨i, o⟩ := p
+    by_cases hia : i = a
+    · subst hia
+      have hib : ¬ i = b := h
+      simp only [LObjects.insert, if_true, hib, if_false]
+    · by_cases hib : i = b
+      · subst hib
+        simp only [LObjects.insert, hia, if_false, if_true]
+      · simp only [LObjects.get, hia, hib, if_false] at ha hb
+        simp only [LObjects.insert, hia, hib, if_false]
+        rw [ih ha hb]
+
+/-- completing a deferred stream does not change what any Length resolves to: a reference chain
+that passes through the stream ends in a stream object before and after, never in an integer -/
+theorem derefL_insert_stream (os : LObjects) (a : ObjId) (da : Dict) (sa : Nat) (d' : Dict) (c : Bytes)
+    (ha : os.get a = some (.pending da sa)) : ∀ (n : Nat) (o : Obj),
+    (derefL (os.insert a (.plain (.stream d' c))) n o).bind Obj.asInt = (derefL os n o).bind Obj.asInt := by
+  intro n
+  induction n with
+  | zero =>
+    intro o
+    cases o with
+    | ref x y =>
+      by_cases hxa : a = (x, y)
+      · subst hxa; simp [derefL, LObjects.get_insert_self, ha]
+      · simp only [derefL, LObjects.get_insert_ne _ _ _ _ hxa]
+    | _ => simp [derefL]
+  | succ n ih =>
+    intro o
+    cases o with
+    | ref x y =>
+      by_cases hxa : a = (x, y)
+      · subst hxa; simp [derefL, LObjects.get_insert_self, ha, Obj.asInt]
+      · simp only [derefL, LObjects.get_insert_ne _ _ _ _ hxa]
+        cases os.get (x, y) with
+        | none => rfl
+        | some v =>
+          cases v with
+          | plain o' => exact ih o'
+          | pending d s => rfl
+    | _ => simp [derefL]
+
+theorem completed_shape (buf : Bytes) (os : LObjects) (a : ObjId) (v : LObj) (h : completed buf os a = some v) :
+    ∃ da sa d' c, os.get a = some (.pending da sa) ∧ v = .plain (.stream d' c) := by
+  unfold completed at h
+  split at h
+  · rename_i da sa hget
+    split at h
+    · split at h
+      · cases h
+      · split at h
+        · cases h
+        · simp only [Option.some.injEq] at h
+          exact ⟨da, sa, _, _, hget, h.symm⟩
+    · cases h
+  · cases h
+
+/-- completing one deferred stream does not change what the completion of another one yields -/
+theorem completed_completeOne (buf : Bytes) (os : LObjects) (a b : ObjId) (h : a ≠ b) :
+    completed buf (completeOne buf os a) b = completed buf os b := by
+  unfold completeOne
+  cases hva : completed buf os a with
+  | none => rfl
+  | some v =>
+    obtain ⟨da, sa, d', c, hget, hv⟩ := completed_shape buf os a v hva
+    subst hv
+    simp only
+    unfold completed
+    rw [LObjects.get_insert_ne _ _ _ _ h]
+    cases os.get b with
+    | none => rfl
+    | some w =>
+      cases w with
+      | plain o => rfl
+      | pending d s =>
+        simp only
+        cases hl : d.get LENGTH with
+        | none => rfl
+        | some lo =>
+          simp only [Option.bind_some]
+          rw [derefL_insert_stream os a da sa d' c hget]
+
+theorem completeOne_def (buf : Bytes) (os : LObjects) (id : ObjId) :
+    completeOne buf os id = (match completed buf os id with | some v => os.insert id v | none => os) := rfl
+
+/-- **the completion steps commute** -/
+theorem completeOne_comm (buf : Bytes) (os : LObjects) (a b : ObjId) :
+    completeOne buf (completeOne buf os a) b = completeOne buf (completeOne buf os b) a := by
+  by_cases h : a = b
+  · subst h; rfl
+  · have h' : b ≠ a := fun e => h e.symm
+    have e1 := completed_completeOne buf os a b h
+    have e2 := completed_completeOne buf os b a h'
+    have l1 : completeOne buf (completeOne buf os a) b =
+        (match completed buf os b with | some v => (completeOne buf os a).insert b v | none => completeOne buf os a) := by
+      rw [completeOne_def buf (completeOne buf os a) b, e1]
+    have l2 : completeOne buf (completeOne buf os b) a =
+        (match completed buf os a with | some v => (completeOne buf os b).insert a v | none => completeOne buf os b) := by
+      rw [completeOne_def buf (completeOne buf os b) a, e2]
+    rw [l1, l2]
+    cases hva : completed buf os a with
+    | none =>
+      cases hvb : completed buf os b with
+      | none => simp [completeOne, hva, hvb]
+      | some w => simp [completeOne, hva, hvb]
+    | some v =>
+      cases hvb : completed buf os b with
+      | none => simp [completeOne, hva, hvb]
+      | some w =>
+        obtain ⟨_, _, _, _, hga, _⟩ := completed_shape buf os a v hva
+        obtain ⟨_, _, _, _, hgb, _⟩ := completed_shape buf os b w hvb
+        simp only [completeOne, hva, hvb]
+        exact LObjects.insert_comm os a b v w h (by simp [hga]) (by simp [hgb])
+
+/-- in whatever order the deferred streams are completed, the result is the same -/
+theorem complete_order_irrelevant (buf : Bytes) (os : LObjects) (l₁ l₂ : List ObjId) (hp : l₁.Perm l₂) :
+    l₁.foldl (completeOne buf) os = l₂.foldl (completeOne buf) os :=
+  hp.foldl_eq' (fun x _ y _ z => completeOne_comm buf z x y) os
+
 /-- **Schedule independence of `Reader::read`.** Whatever order the per-container blocks arrive
-in — `arr` is ANY function that permutes them — the loaded document is the document of the
-sequential reader. -/
-theorem load_schedule_independent (arr : List Block → List Block) (harr : ∀ bs, (arr bs).Perm bs)
-    (file : Bytes) : loadDocWith arr file = loadDocWith id file := by
+in and whatever order the deferred streams are completed in — `arr` and `arr2` are ANY functions
+that permute them — the loaded document is the document of the sequential reader. -/
+theorem load_schedule_independent (arr : List Block → List Block) (arr2 : List ObjId → List ObjId)
+    (harr : ∀ bs, (arr bs).Perm bs) (harr2 : ∀ ids, (arr2 ids).Perm ids)
+    (file : Bytes) : loadDocWith arr arr2 file = loadDocWith id id file := by
   have key : ∀ (buf : Bytes) (x : XTable) (n : Nat) (os : LObjects) (fs : List Block),
       (x.sorted).foldl (loadStep buf x n) (.ok ([], [])) = .ok (os, fs) →
       mergeBlocksX x os (arr fs) = mergeBlocksX x os fs := by
     intro buf x n os fs h
     have hd := fromStm_keys_nodup buf x n os fs h
     exact (merge_schedule_independent x os fs (arr fs) (harr fs).symm hd).symm
+  have key2 : ∀ (buf : Bytes) (os : LObjects),
+      (arr2 (pendingIds os)).foldl (completeOne buf) os = (pendingIds os).foldl (completeOne buf) os :=
+    fun buf os => complete_order_irrelevant buf os _ _ (harr2 _)
   unfold loadDocWith
   simp only []
   repeat' split
   all_goals try rfl
-  all_goals rw [key _ _ _ _ _ (by assumption)]
+  all_goals rw [key _ _ _ _ _ (by assumption), key2]
   all_goals rfl
 
 /-! ### hook H1 only permutes -/
@@ -360,12 +513,43 @@ theorem permuteBlocks_perm (bs : List Block) (order : List Nat) : (permuteBlocks
   rw [this]
   exact sortBlocks_perm bs
 
-/-- every arrival order that hook H1 can produce loads the document of the sequential reader -/
-theorem load_order_irrelevant (order : Option (List Nat)) (file : Bytes) :
-    loadDocOrd order file = loadDoc file := by
-  unfold loadDoc loadDocOrd
-  cases order with
-  | none => rfl
-  | some p => exact load_schedule_independent _ (fun bs => permuteBlocks_perm bs p) file
+theorem insertId_perm (a : ObjId) (l : List ObjId) : (insertId a l).Perm (a :: l) := by
+  induction l with
+  | nil => simp [insertId]
+  | cons b r ih =>
+    unfold insertId
+    split
+    · exact List.Perm.refl _
+    · exact (List.Perm.cons b ih).trans (List.Perm.swap a b r)
+
+theorem sortIds_perm (l : List ObjId) : (sortIds l).Perm l := by
+  induction l with
+  | nil => exact List.Perm.refl _
+  | cons a r ih => exact (insertId_perm a _).trans (List.Perm.cons a ih)
+
+/-- hook H2 only permutes -/
+theorem reorderZero_perm (k : Nat) (ids : List ObjId) : (reorderZero k ids).Perm ids := by
+  unfold reorderZero
+  simp only
+  have h1 : ∀ m, ((sortIds ids).drop m ++ (sortIds ids).take m).Perm ids := by
+    intro m
+    refine List.perm_append_comm.trans ?_
+    rw [List.take_append_drop]
+    exact sortIds_perm ids
+  split
+  · exact (List.reverse_perm _).trans (h1 _)
+  · exact h1 _
+
+/-- every arrival order (hook H1) and every completion order (hook H2) loads the document of the sequential reader -/
+theorem load_order_irrelevant (order : Option (List Nat)) (zero : Option Nat) (file : Bytes) :
+    loadDocOrd2 order zero file = loadDoc file := by
+  unfold loadDoc loadDocOrd loadDocOrd2
+  apply load_schedule_independent
+  · intro bs; cases order with
+    | none => exact List.Perm.refl _
+    | some p => exact permuteBlocks_perm bs p
+  · intro ids; cases zero with
+    | none => exact List.Perm.refl _
+    | some k => exact reorderZero_perm k ids
 
 end Lopdf
